@@ -43,7 +43,7 @@ META = {
     "theorems": [
         "Pyoda.C13.year_key_injective", "Pyoda.C13.yearCache_transparent", "Pyoda.C13.hebrewCache_transparent",
         "Pyoda.C13.zoneCache_transparent", "Pyoda.C13.lru_transparent", "Pyoda.C13.lru_size_le",
-        "Pyoda.C13.lazy_same_object", "Pyoda.C13.yearCache_interleaved",
+        "Pyoda.C13.lazy_same_object", "Pyoda.C13.lazy_known_some", "Pyoda.C13.yearCache_interleaved",
         "Pyoda.C13.lazy_locked_same_object_interleaved", "Pyoda.C13.lazy_unlocked_counterexample",
     ],
     "trusted_base": [
@@ -377,7 +377,7 @@ def oracle_lazy_force(t):
     n = int(t[1])
     objs, created = force_schedule(n)
     if objs != 1:
-        return {"key": "lazy-zone-not-singleton", "what": f"DateTimeZoneCache over a slow source: {n} threads that all look up 'Europe/Paris' before the first creation finishes are all let through the absent-check (no lock): {created} zones created, {objs} distinct objects returned for one id"}
+        return {"key": "lazy-zone-not-singleton-forced", "what": f"DateTimeZoneCache over a slow source: {n} threads that all look up 'Europe/Paris' before the first creation finishes are all let through the absent-check (no lock): {created} zones created, {objs} distinct objects returned for one id"}
     return None
 
 
@@ -970,13 +970,13 @@ def run(ctx):
     loaded = {k for k, v in prov._DateTimeZoneCache__time_zone_map.items() if v is not None}
     fresh_ids = [z for z in ids if z not in loaded and not z.startswith("Etc/") and z != "UTC"]
     rng.shuffle(fresh_ids)
-    n_zone = ctx.scale(10, 120)
+    n_zone = ctx.scale(8, 120)
     cases = []
     for r, z in enumerate(fresh_ids[:n_zone]):
         cases.append(f"barrier zone {hexs(z)} {r}")
     for r in range(ctx.scale(2, 12)):
         cases.append(f"barrier offset {hexs(str(rng.choice([3, -5, 11, 29, -23]) * 1800))} {r}")
-    for r in range(ctx.scale(3, 20)):
+    for r in range(ctx.scale(2, 20)):
         cases.append(f"barrier calendars - {r}")
     for r in range(ctx.scale(2, 10)):
         cases.append(f"barrier utc - {r}")
@@ -989,10 +989,10 @@ def run(ctx):
         correspond("lazy.force", ["lazy.force 2", "lazy.force 3"], impl, oracle=oracle)
 
     def _section_2():  # caches against their models
-        yops = gen_ycache_ops(ctx, ctx.scale(120, 3000))
+        yops = gen_ycache_ops(ctx, ctx.scale(100, 3000))
         correspond("ycache.run", yops, impl, oracle=oracle)
         ctx.evaluations += sum(len(o.split(" ")) - 3 for o in yops)
-        hops = gen_hcache_ops(ctx, ctx.scale(2500, 60000))
+        hops = gen_hcache_ops(ctx, ctx.scale(2000, 60000))
         correspond("hcache.run", hops, impl, oracle=oracle)
         ctx.evaluations += sum(len(o.split(" ")) - 2 for o in hops)
         zops = gen_zcache_ops(ctx, ctx.scale(3000, 100000))
